@@ -21,6 +21,7 @@ Neg(v) == CASE IsBad(v) -> v
             [] IsNum(v) -> IF v.x THEN Num(v.k, QNeg(v.re), QNeg(v.im)) ELSE Inx(v.k, TNeg(v.term))
             [] OTHER -> Unspec
 
+TooBig(k) == [k |-> "big", kind |-> k]     \* the exact result leaves TLC's integer range: kept as a term instead
 ExactArith(op, a, b) ==
   LET k == MaxKind(a.k, b.k) IN
   CASE op = "+" -> LET c == CAdd(a, b) IN Num(k, c.re, c.im)
@@ -32,9 +33,9 @@ ExactArith(op, a, b) ==
          IF b.im[1] = 0 /\ QIsInt(b.re) /\ (Abs(b.re[1]) <= 40 \/ b.k = "int")
          THEN IF Abs(b.re[1]) > 40 THEN Unspec
               ELSE IF b.re[1] >= 0
-              THEN LET p == CPow(a, b.re[1]) IN IF p.ok THEN Num(k, p.re, p.im) ELSE Unspec
+              THEN LET p == CPow(a, b.re[1]) IN IF p.ok THEN Num(k, p.re, p.im) ELSE TooBig(k)
               ELSE IF k = "int" \/ CIsZero(a) THEN Unspec          \* int ** negative int, 0 ** negative
-                   ELSE LET p == CPow(CInv(a), -b.re[1]) IN IF p.ok THEN Num(k, p.re, p.im) ELSE Unspec
+                   ELSE LET p == CPow(CInv(a), -b.re[1]) IN IF p.ok THEN Num(k, p.re, p.im) ELSE TooBig(k)
          ELSE IF a.im[1] = 0 /\ a.re[1] > 0 /\ b.im[1] = 0
               THEN Inx(IF k = "int" THEN "float" ELSE k, TBin("**", TNum(a), TNum(b)))   \* positive base, real exponent
               ELSE Unspec
@@ -49,7 +50,10 @@ Arith(op, a, b) ==
     [] IsNum(a) /\ IsNum(b) ->
          IF a.x /\ b.x
          THEN IF VBig(a) \/ VBig(b) THEN Unspec
-              ELSE Guard(ExactArith(op, a, b))
+              ELSE LET r == ExactArith(op, a, b) IN
+                   IF r.k = "big" THEN Inx(r.kind, TBin(op, TNum(a), TNum(b)))
+                   ELSE IF IsExact(r) /\ VBig(r) THEN Inx(r.k, TBin(op, TNum(a), TNum(b)))
+                   ELSE r
          ELSE LET k == MaxKind(a.k, b.k) IN
               IF op = "**" THEN Unspec       \* powers of inexact numbers: sign/domain not decidable here
               ELSE Inx(IF k = "int" THEN "float" ELSE k, TBin(op, TermOf(a), TermOf(b)))
@@ -70,6 +74,7 @@ InDomain(f, v) ==
        [] OTHER -> TRUE
 Apply(f, v) == CASE IsBad(v) -> v
                  [] InDomain(f, v) -> Inx("float", TFn(f, TNum(v)))
+                 [] IsNum(v) /\ ~v.x /\ v.k = "float" -> Inx("float", TFn(f, v.term))    \* the harness evaluator rejects arguments outside the domain
                  [] OTHER -> Unspec
 
 Flatten(rows) == LET RECURSIVE F(_) F(i) == IF i > Len(rows) THEN <<>> ELSE rows[i] \o F(i + 1) IN F(1)
@@ -80,6 +85,7 @@ Eval(e, V, PN) ==
     [] e.t = "flt" -> Flt(e.n, e.d)
     [] e.t = "cpx" -> Num("complex", QNorm(e.re[1], e.re[2]), QNorm(e.im[1], e.im[2]))
     [] e.t = "pi"  -> Inx("float", TPi)
+    [] e.t = "atom" -> Inx(e.k, [t |-> "atom", a |-> e.a])   \* a literal too long for TLC's integers: opaque, valued by the harness
     [] e.t = "val" -> e.v                      \* a literal denoting exactly this value (serialised numbers)
     [] e.t = "str" -> Str(e.s)
     [] e.t = "bool" -> Bool(e.b)
